@@ -309,7 +309,7 @@ func c15(c *Ctx) {
 				}
 				return nil
 			},
-			Callees: func(call ssa.CallInstruction) []*ssa.Function { return c.Callees(call) },
+			Callees:  func(call ssa.CallInstruction) []*ssa.Function { return c.Callees(call) },
 			NoReturn: func(ins ssa.Instruction) bool { return c.noReturnCall(ins) },
 		}
 		// the sweep itself is the event "unsaved": model it at the call sites of sweep functions
